@@ -1,7 +1,7 @@
 (* Proofs for C04: Transaction::blind in the ideal-commitment world produces a transaction that verifies and unblinds. *)
 From Coq Require Import List NArith ZArith Bool Lia Setoid Morphisms.
 From Coq.Strings Require Import Byte.
-From EV Require Import Base.Bytes Base.Zn Base.FreeMod Model.Script Model.Ideal Model.Verify Model.Blind
+From EV Require Import Base.Bytes Base.Zn Base.FreeMod Gen.Tables Model.Script Model.Ideal Model.Verify Model.Blind
   Proofs.ScriptTemplates Proofs.Ideal Proofs.Verify.
 Import ListNotations.
 Open Scope Z_scope.
@@ -15,6 +15,15 @@ Proof. induction 1; cbn; [auto|]. intro. constructor; auto. Qed.
 Lemma Forall3_length {A B C} (R : A -> B -> C -> Prop) la lb lc :
   Forall3 R la lb lc -> length lb = length la /\ length lc = length la.
 Proof. induction 1; cbn; [auto|]. destruct IHForall3. split; congruence. Qed.
+
+(* the guard of Asset::blind on the size of the surjection domain (SURJECTIONPROOF_MAX_N_INPUTS, Gen/Tables.v); nothing below
+   depends on the value of the constant. `within_limit` only keeps the bound out of the sight of `lia` where it is a section
+   hypothesis (so that exactly the lemmas that use it get it as a premise); the theorems state the inequality itself. *)
+Definition within_limit (n : nat) : Prop := (N.of_nat n <= CT_SURJECTIONPROOF_MAX_N_INPUTS)%N.
+Lemma dom_guard_ok n : within_limit n -> (CT_SURJECTIONPROOF_MAX_N_INPUTS <? N.of_nat n)%N = false.
+Proof. intro H. apply N.ltb_ge. exact H. Qed.
+Lemma dom_guard_over n : (CT_SURJECTIONPROOF_MAX_N_INPUTS < N.of_nat n)%N -> (CT_SURJECTIONPROOF_MAX_N_INPUTS <? N.of_nat n)%N = true.
+Proof. intro H. apply N.ltb_lt. exact H. Qed.
 
 Definition nmarked (outs : list txout) : nat := length (filter marked outs).
 Lemma nmarked_cons o outs : nmarked (o :: outs) = ((if marked o then 1 else 0) + nmarked outs)%nat.
@@ -51,6 +60,9 @@ Section Keys.
   Variable p : profile.
   Variable ss : list secrets.            (* spent_utxo_secrets *)
   Let dom := map sinput_of_secrets ss.
+  (* the surjection domain (spent outputs and issuance pseudo-inputs) is within the limit of Asset::blind; a premise of exactly
+     the lemmas below that need a surjection proof to be made *)
+  Hypothesis ss_small : within_limit (length ss).
 
   (* an explicit output as C04 requires it: positive amount; a marked one within the rangeproof limit, on an address
      script, and of an asset some input carries *)
@@ -97,6 +109,7 @@ Section Keys.
     { apply in_map_iff in I as (s' & E & I). exists (sgen s'), (s_abf s'). apply in_map_iff. exists s'. split; [now rewrite E|exact I]. }
     exists i, bf. split; [exact F|].
     unfold with_txout_secrets, asset_blind, dom. rewrite surjection_targets_secrets. cbn [obind].
+    rewrite map_length, (dom_guard_ok _ ss_small).
     unfold sp_new. rewrite F. cbn [obind]. unfold value_blind, value_blind_with_shared_secret. cbn [fst snd].
     rewrite min_guard by lia. rewrite pedersen_new_ok by (pose proof qn_big; lia). cbn [obind].
     rewrite rp_new_some by (unfold I64_MAX; lia). cbn [obind].
@@ -107,6 +120,7 @@ Section Keys.
       /\ o' = wts_out spk rk esk s i bf /\ 1 <= s_value s <= I64_MAX.
   Proof.
     unfold with_txout_secrets, asset_blind, dom. rewrite surjection_targets_secrets. cbn [obind].
+    destruct (N.ltb CT_SURJECTIONPROOF_MAX_N_INPUTS _); [cbn [obind]; discriminate|].
     unfold sp_new. destruct (find_tag _ _ 0) as [[i bf]|] eqn:F; [|discriminate]. cbn [obind].
     unfold value_blind, value_blind_with_shared_secret, pedersen_new. cbn [fst snd].
     destruct (s_value s <? RANGEPROOF_MIN_VALUE); [discriminate|].
@@ -387,10 +401,11 @@ Section C04.
   Theorem blind_verifies (t : tx) (spent : list txout) (ss : list secrets) (rnd : list Z) :
     explicit_positive t -> scripts_addressable t -> opens (t_in t) spent ss -> balanced_per_asset ss t ->
     existsb marked (t_out t) = true -> rnd_ok t rnd ->
+    (N.of_nat (length ss) <= CT_SURJECTIONPROOF_MAX_N_INPUTS)%N ->
     exists t' bl, blind pubk ecdh p rnd ss t = OVal (t', bl) /\ verify_tx_amt_proofs t' spent = OVal tt.
   Proof.
-    intros EP SA OP BA EX [RL RZ].
-    destruct (blind_char pubk ecdh p ss t rnd (hyps_out_good ss t EP SA BA) EX RL RZ) as (news & osecs & B & F3 & GB).
+    intros EP SA OP BA EX [RL RZ] SM.
+    destruct (blind_char pubk ecdh p ss SM t rnd (hyps_out_good ss t EP SA BA) EX RL RZ) as (news & osecs & B & F3 & GB).
     exists (mkTx (t_in t) news), (blinds_of 0 osecs). split; [exact B|].
     unfold verify_tx_amt_proofs. cbn [t_in t_out]. rewrite (opens_length _ _ _ OP), Nat.eqb_refl. cbn [negb].
     destruct (verify_inputs_ok _ _ _ OP 0%nat) as (dom & com & -> & D & C). cbn [obind].
@@ -443,6 +458,7 @@ Section C04.
   Theorem blind_unblinds (t : tx) (spent : list txout) (ss : list secrets) (rnd : list Z) :
     explicit_positive t -> scripts_addressable t -> balanced_per_asset ss t ->
     existsb marked (t_out t) = true -> rnd_ok t rnd ->
+    (N.of_nat (length ss) <= CT_SURJECTIONPROOF_MAX_N_INPUTS)%N ->
     exists t' bl, blind pubk ecdh p rnd ss t = OVal (t', bl) /\ length (t_out t') = length (t_out t) /\
       (* every marked output is reported, blinded with the reported factors, and unblinds to the original asset and value *)
       (forall i o, nth_error (t_out t) i = Some o -> marked o = true ->
@@ -455,8 +471,8 @@ Section C04.
       (forall i x, In (i, x) bl -> exists o, nth_error (t_out t) i = Some o /\ marked o = true) /\
       (forall i o, nth_error (t_out t) i = Some o -> marked o = false -> nth_error (t_out t') i = Some o).
   Proof.
-    intros EP SA BA EX [RL RZ].
-    destruct (blind_char pubk ecdh p ss t rnd (hyps_out_good ss t EP SA BA) EX RL RZ) as (news & osecs & B & F3 & GB).
+    intros EP SA BA EX [RL RZ] SM.
+    destruct (blind_char pubk ecdh p ss SM t rnd (hyps_out_good ss t EP SA BA) EX RL RZ) as (news & osecs & B & F3 & GB).
     exists (mkTx (t_in t) news), (blinds_of 0 osecs). split; [exact B|]. cbn [t_out].
     destruct (Forall3_length _ _ _ _ F3) as [LN LO]. split; [exact LN|]. split; [|split].
     - intros i o NE M. destruct (Forall3_nth _ _ _ _ F3 i o NE) as (o' & [s oe] & NE' & NS & (a & v & A & V & SA' & SV & R)).
@@ -499,38 +515,41 @@ Qed.
 Section NoMarked.
   Variable pubk : Z -> Z.
   Variable ecdh : Z -> Z -> Z.
-  Theorem blind_none_marked_error p rnd ss t :
-    explicit_positive t -> existsb marked (t_out t) = false -> Forall in_zn rnd ->
-    blind pubk ecdh p rnd ss t = OFail BTooFewBlindingOutputs.
+  (* the loop over outputs none of which is marked: every one is kept and its explicit secrets recorded; nothing is drawn,
+     nothing is blinded (so neither amounts, randomness nor the size of the surjection domain matter) *)
+  Lemma loop_unmarked_state p ntb ss : forall outs st i,
+    forallb (fun o => asset_is_explicit (o_asset o) && value_is_explicit (o_value o)) outs = true -> existsb marked outs = false ->
+    exists secs, blind_loop pubk ecdh p ntb ss st i outs =
+      OVal (mkBS (bs_outs st ++ outs) (bs_secrets st ++ secs) (bs_last st) (bs_blinds st) (bs_num_blinded st) (bs_rnd st)).
   Proof.
-    intros EP NM RZ. unfold blind.
-    assert (AE : forallb (fun o => asset_is_explicit (o_asset o) && value_is_explicit (o_value o)) (t_out t) = true).
-    { apply forallb_forall. intros o I. unfold explicit_positive in EP. rewrite Forall_forall in EP.
-      destruct (EP o I) as (a & v & -> & -> & _). reflexivity. }
-    rewrite AE. cbn [negb].
-    assert (Z0 : nmarked (t_out t) = 0%nat).
-    { unfold nmarked. clear -NM. induction (t_out t) as [|o r IH]; [reflexivity|]. cbn [existsb filter] in *.
-      apply orb_false_iff in NM as [-> NM]. now apply IH. }
-    assert (G : Forall (out_good ss) (t_out t)).
-    { unfold explicit_positive in EP. rewrite Forall_forall in *. intros o I. destruct (EP o I) as (a & v & A & V & R & _).
-      exists a, v. pose proof qn_big. split; [exact A|]. split; [exact V|]. split; [lia|]. intro M. exfalso.
-      assert (X : existsb marked (t_out t) = true) by (apply existsb_exists; now exists o). congruence. }
-    fold (nmarked (t_out t)). rewrite Z0.
-    destruct (loop_phase pubk ecdh p ss 0%nat (t_out t) (mkBS [] [] None [] 0 rnd) 0%nat G) as (news & osecs & rnd' & -> & _);
-      cbn [bs_num_blinded bs_rnd]; try (rewrite Z0); try (left; reflexivity); try lia; try assumption.
-    reflexivity.
+    induction outs as [|o outs IH]; intros st i AE NM; cbn [blind_loop].
+    - exists []. rewrite !app_nil_r. now destruct st.
+    - cbn [forallb existsb] in AE, NM. apply andb_true_iff in AE as [AO AE]. apply orb_false_iff in NM as [MO NM].
+      unfold blind_step. rewrite marked_cond, MO. cbn [negb]. apply andb_true_iff in AO as [A V]. unfold explicit_asset, explicit_value.
+      destruct (o_asset o) as [|a|]; try discriminate. destruct (o_value o) as [|v|]; try discriminate. cbn [obind].
+      destruct (IH (mkBS (bs_outs st ++ [o]) (bs_secrets st ++ [mkSec a 0 v 0]) (bs_last st) (bs_blinds st) (bs_num_blinded st) (bs_rnd st)) (S i) AE NM) as (secs & ->).
+      exists (mkSec a 0 v 0 :: secs). cbn [bs_outs bs_secrets bs_last bs_blinds bs_num_blinded bs_rnd]. rewrite <- !app_assoc. reflexivity.
   Qed.
   (* without any hypothesis on amounts or randomness: no marked output never panics — the outcome is one of the two errors *)
   Lemma loop_unmarked p ntb ss : forall outs st i,
     forallb (fun o => asset_is_explicit (o_asset o) && value_is_explicit (o_value o)) outs = true -> existsb marked outs = false ->
     exists st', blind_loop pubk ecdh p ntb ss st i outs = OVal st' /\ bs_last st' = bs_last st.
   Proof.
-    induction outs as [|o outs IH]; intros st i AE NM; cbn [blind_loop]. - now exists st.
-    - cbn [forallb existsb] in AE, NM. apply andb_true_iff in AE as [AO AE]. apply orb_false_iff in NM as [MO NM].
-      unfold blind_step. rewrite marked_cond, MO. cbn [negb]. apply andb_true_iff in AO as [A V]. unfold explicit_asset, explicit_value.
-      destruct (o_asset o) as [|a|]; try discriminate. destruct (o_value o) as [|v|]; try discriminate. cbn [obind].
-      destruct (IH (mkBS (bs_outs st ++ [o]) (bs_secrets st ++ [mkSec a 0 v 0]) (bs_last st) (bs_blinds st) (bs_num_blinded st) (bs_rnd st)) (S i) AE NM) as (st' & R & L).
-      exists st'. cbn [obind]. split; [exact R|exact L].
+    intros outs st i AE NM. destruct (loop_unmarked_state p ntb ss outs st i AE NM) as (secs & ->). eexists. split; reflexivity.
+  Qed.
+  Lemma explicit_positive_explicit t : explicit_positive t ->
+    forallb (fun o => asset_is_explicit (o_asset o) && value_is_explicit (o_value o)) (t_out t) = true.
+  Proof.
+    intro EP. apply forallb_forall. intros o I. unfold explicit_positive in EP. rewrite Forall_forall in EP.
+    destruct (EP o I) as (a & v & -> & -> & _). reflexivity.
+  Qed.
+  Theorem blind_none_marked_error p rnd ss t :
+    explicit_positive t -> existsb marked (t_out t) = false -> Forall in_zn rnd ->
+    blind pubk ecdh p rnd ss t = OFail BTooFewBlindingOutputs.
+  Proof.
+    intros EP NM _. unfold blind. pose proof (explicit_positive_explicit t EP) as AE. rewrite AE. cbn [negb].
+    destruct (loop_unmarked p (length (filter marked (t_out t))) ss (t_out t) (mkBS [] [] None [] 0 rnd) 0%nat AE NM) as (st' & -> & L).
+    cbn [obind]. rewrite L. reflexivity.
   Qed.
   Theorem blind_none_marked_never_panics p rnd ss t : existsb marked (t_out t) = false ->
     blind pubk ecdh p rnd ss t = OFail BTooFewBlindingOutputs \/ blind pubk ecdh p rnd ss t = OFail BMustHaveAllExplicitTxOuts.
@@ -541,3 +560,86 @@ Section NoMarked.
     cbn [obind]. rewrite L. reflexivity.
   Qed.
 End NoMarked.
+
+(* ================================================================== the surjection domain is larger than Asset::blind accepts *)
+Section DomainLimit.
+  Variable pubk : Z -> Z.
+  Variable ecdh : Z -> Z -> Z.
+
+  Lemma surjection_targets_total : forall l i, Forall (fun s => exists t, surjection_target s = OVal t) l ->
+    exists tg, surjection_targets l i = OVal tg /\ length tg = length l.
+  Proof.
+    induction l as [|s l IH]; intros i F; cbn [surjection_targets]. - now exists [].
+    - inversion F as [|? ? [t T] Fr]; subst. rewrite T. cbn [map_err obind].
+      destruct (IH (S i) Fr) as (tg & -> & L). cbn [obind]. exists (t :: tg). split; [reflexivity|]. cbn [length]. now rewrite L.
+  Qed.
+  (* Asset::blind refuses: every target is computed (no TxOutError), then the size check fails *)
+  Theorem asset_blind_over_limit a abf spent : Forall (fun s => exists t, surjection_target s = OVal t) spent ->
+    (CT_SURJECTIONPROOF_MAX_N_INPUTS < N.of_nat (length spent))%N ->
+    asset_blind (AExp a) abf spent = OFail BCannotProveSurjection.
+  Proof.
+    intros F L. destruct (surjection_targets_total spent 0%nat F) as (tg & ST & LT). unfold asset_blind. rewrite ST. cbn [obind].
+    rewrite LT, (dom_guard_over _ L). reflexivity.
+  Qed.
+  (* the surjection target of known secrets always exists *)
+  Lemma secrets_targets_total ss : Forall (fun s => exists t, surjection_target s = OVal t) (map sinput_of_secrets ss).
+  Proof. apply Forall_forall. intros s I. apply in_map_iff in I as (x & <- & _). eexists. reflexivity. Qed.
+  Lemma wts_over_limit spk rk esk s ss : (CT_SURJECTIONPROOF_MAX_N_INPUTS < N.of_nat (length ss))%N ->
+    with_txout_secrets pubk ecdh spk rk esk s (map sinput_of_secrets ss) = OFail BCannotProveSurjection.
+  Proof.
+    intro L. unfold with_txout_secrets. rewrite asset_blind_over_limit; [reflexivity|apply secrets_targets_total|now rewrite map_length].
+  Qed.
+
+  Lemma nmarked_zero outs : existsb marked outs = false <-> nmarked outs = 0%nat.
+  Proof.
+    unfold nmarked. induction outs as [|o r IH]; cbn [existsb filter]; [tauto|].
+    destruct (marked o); cbn [orb length]; [split; [discriminate|lia]|exact IH].
+  Qed.
+  Lemma split_first_marked outs : existsb marked outs = true ->
+    exists A M B, outs = A ++ M :: B /\ marked M = true /\ existsb marked A = false.
+  Proof.
+    induction outs as [|o outs IH]; cbn [existsb]; [discriminate|].
+    destruct (marked o) eqn:MO.
+    - intros _. exists [], o, outs. auto.
+    - cbn [orb]. intro E. destruct (IH E) as (A & M & B & -> & MM & NA). exists (o :: A), M, B. cbn [existsb app]. rewrite MO. auto.
+  Qed.
+
+  (* Transaction::blind with at least one marked output: the first marked output is reached (the outputs before it are only
+     recorded), and blinding it — as a non-last output inside the loop, or as the last one after the loop — asks Asset::blind
+     for a surjection proof over all of `ss`, which is refused. The whole call returns that error. *)
+  Theorem blind_over_limit p rnd ss t :
+    explicit_positive t -> scripts_addressable t -> existsb marked (t_out t) = true -> rnd_ok t rnd ->
+    (CT_SURJECTIONPROOF_MAX_N_INPUTS < N.of_nat (length ss))%N ->
+    blind pubk ecdh p rnd ss t = OFail BCannotProveSurjection.
+  Proof.
+    intros EP SA EX [RL _] OV. unfold blind. pose proof (explicit_positive_explicit t EP) as AE. rewrite AE. cbn [negb].
+    fold (nmarked (t_out t)). unfold scripts_addressable in SA.
+    destruct (split_first_marked _ EX) as (A & M & B & E & MM & NA). rewrite E in *.
+    rewrite forallb_app in AE. apply andb_true_iff in AE as [AEA AEMB]. cbn [forallb] in AEMB. apply andb_true_iff in AEMB as [AEM AEB].
+    apply Forall_app in SA as [_ SA]. inversion SA as [|? ? SAM _]; subst. destruct (SAM MM) as (ad & AD).
+    destruct (marked_nonce M MM) as (rk & NK).
+    apply andb_true_iff in AEM as [AM VM].
+    destruct (o_asset M) as [|a|] eqn:EA; try discriminate AM. destruct (o_value M) as [|v|] eqn:EV; try discriminate VM.
+    pose proof (proj1 (nmarked_zero A) NA) as ZA. rewrite nmarked_app, nmarked_cons, MM, ZA in *. cbn [Nat.add] in *.
+    rewrite blind_loop_app.
+    destruct (loop_unmarked_state pubk ecdh p (S (nmarked B)) ss A (mkBS [] [] None [] 0 rnd) 0%nat AEA NA) as (secsA & ->).
+    cbn [obind bs_outs bs_secrets bs_last bs_blinds bs_num_blinded bs_rnd app Nat.add blind_loop].
+    unfold blind_step at 1. rewrite marked_cond, MM. cbn [negb]. unfold nonce_commitment. rewrite NK. cbn [obind].
+    rewrite (address_spk_ok p _ ad AD). cbn [obind bs_num_blinded Nat.add].
+    destruct (1 <? S (nmarked B))%nat eqn:LT.
+    - (* another marked output follows: this one is blinded inside the loop *)
+      apply Nat.ltb_lt in LT. unfold explicit_value, explicit_asset. rewrite EA, EV. cbn [obind bs_rnd].
+      unfold new_not_last_confidential.
+      destruct rnd as [|x1 [|x2 [|x3 rnd']]]; cbn [length] in RL; try lia. cbn [draw obind].
+      rewrite (wts_over_limit _ _ _ _ ss OV). reflexivity.
+    - (* it is the only marked output: it is blinded after the loop, as the last one *)
+      apply Nat.ltb_ge in LT. assert (ZB : nmarked B = 0%nat) by lia. pose proof (proj2 (nmarked_zero B) ZB) as NB.
+      cbn [obind bs_outs bs_secrets bs_last bs_blinds bs_num_blinded bs_rnd].
+      destruct (loop_unmarked_state pubk ecdh p (S (nmarked B)) ss B (mkBS (A ++ [M]) secsA (Some (length A)) [] 1 rnd) (S (length A)) AEB NB) as (secsB & ->).
+      cbn [obind bs_outs bs_secrets bs_last bs_blinds bs_num_blinded bs_rnd]. rewrite <- app_assoc. cbn [app].
+      rewrite nth_error_mid. unfold nonce_commitment, explicit_value, explicit_asset. rewrite NK, EA, EV. cbn [obind].
+      unfold new_last_confidential. rewrite ZB in RL.
+      destruct rnd as [|x1 [|x2 rnd']]; cbn [length] in RL; try lia. cbn [draw obind].
+      unfold with_secrets_last. rewrite (wts_over_limit _ _ _ _ ss OV). reflexivity.
+  Qed.
+End DomainLimit.
